@@ -1,3 +1,307 @@
-/-! Property C14 — theorems (statements live here, helper lemmas in Faithful/Lib) -/
+import Faithful.Lib.Frames
+
+/-! Property C14 — multi-frame payloads reassemble to the original bytes or are rejected.
+
+Theorems about the definitions of `Faithful/Lib/Frames.lean` that the driver `Driver/C14.lean` executes
+(`Frames.load`, `Frames.outcomes`, `Frames.accRun`).  Quantified over: every payload and every chunking of it
+(`chunks : List Bytes`, any number ≥ 1 of chunks of any sizes), every fan-out `F ≥ 1`, every order `σ` in which a
+frame lists its links, every store that holds the frames (so every storage order), every sort function that
+satisfies the contract of `sort.Slice` (`SortFn`: a sorted permutation, stability not assumed), every pair of
+checksum functions (`Hashes`; collisions are never assumed away), every fuel large enough.
+Helper lemmas live in `Faithful/Lib/Frames.lean`. -/
+
 namespace C14
+open Frames
+
+/-- toy checksums for the non-vacuity examples: byte sum / length (collisions are easy to exhibit) -/
+def toyH : Hashes := ⟨fun b => (b.map (·.toNat)).sum, fun b => 1000 + b.length⟩
+def ch : List Bytes := [[1,2],[3],[],[4,5,6],[7]]
+def rev : Nat → List Cid → List Cid := fun _ l => l.reverse
+
+/-! ### 1. the writer's layout reassembles, for every payload, chunking, fan-out and order -/
+
+/-- A payload cut into any `k ≥ 1` chunks, laid out as the comment in `ledger.ipldsch` prescribes with any
+fan-out `F ≥ 1`, every frame listing its links in any order `σ`, stored in any store that returns these
+frames, with or without the `total` field, with no hash or the CRC-64 or the legacy FNV of the payload,
+sorted by any implementation of `sort.Slice`: `LoadDataFromDataFrames` returns exactly the payload. -/
+theorem reassemble_ok (H : Hashes) (S : SortFn) (chunks : List Bytes) (F : Nat) (tot : Bool) (h : Option Nat)
+    (σ : Nat → List Cid → List Cid) (hne : chunks ≠ []) (hF : 1 ≤ F) (hσ : ∀ j l, (σ j l).Perm l)
+    (hh : ∀ x, h = some x → H.crc chunks.flatten = x ∨ H.fnv chunks.flatten = x)
+    (get : Store) (hget : ∀ c, c < chunks.length → get c = some (mkFrame chunks F tot h σ c))
+    (n : Nat) (hn : chunks.length ≤ n) :
+    load H S.sort get n (mkFrame chunks F tot h σ 0) = .ok chunks.flatten := by
+  rw [load_layout H S chunks F tot h σ hne hF hσ get hget n hn]
+  unfold hashStep
+  cases h with
+  | none => rfl
+  | some x =>
+    have : verifyHash H chunks.flatten x = true := by
+      unfold verifyHash
+      rcases hh x rfl with e | e <;> simp [e]
+    simp [this]
+
+/-- non-vacuity: five chunks (one empty), fan-out 2, links listed in reverse, CRC accepted -/
+example : load toyH SortFn.ins.sort (layoutStore ch 2 true (some 28) rev) 6 (mkFrame ch 2 true (some 28) rev 0)
+    = .ok [1,2,3,4,5,6,7] := by decide
+/-- … the legacy FNV value is accepted too, and a layout without `total`/`hash` -/
+example : load toyH SortFn.ins.sort (layoutStore ch 1 true (some 1007) rev) 6 (mkFrame ch 1 true (some 1007) rev 0)
+    = .ok [1,2,3,4,5,6,7] := by decide
+example : load toyH SortFn.ins.sort (layoutStore ch 10 false none rev) 6 (mkFrame ch 10 false none rev 0)
+    = .ok [1,2,3,4,5,6,7] := by decide
+/-- the layout is the one of the schema comment: 10 frames, fan-out 5 -/
+example : (List.range 10).map (nextOf 10 5) = [[1,2,3,4,5],[],[],[],[],[6,7,8,9],[],[],[],[]] := by decide
+
+/-- The same for every link graph, not only the comment's: if the traversal fetches exactly the frames `canon`
+(each once, in whatever order and nesting) and these carry distinct increasing indices, the answer is their
+concatenation.  The order of fetching is irrelevant because the sorted permutation is unique. -/
+theorem reassemble_ok_any_graph (H : Hashes) (S : SortFn) (get : Store) (n : Nat) (first : Frame)
+    (ws canon : List Frame)
+    (hw : walk get n first = .ok ws) (hp : ws.Perm canon) (hc : StrictIdx canon)
+    (ht : ∀ t, first.total = some t → t = (canon.length : Int))
+    (hh : ∀ h, first.hash = some h → H.crc (payloadOf canon) = h ∨ H.fnv (payloadOf canon) = h) :
+    load H S.sort get n first = .ok (payloadOf canon) :=
+  load_of_walk_perm H S get n first ws canon hw hp hc ht hh
+
+/-- two sort implementations cannot disagree on such a frame set -/
+theorem sort_choice_irrelevant (H : Hashes) (S S' : SortFn) (get : Store) (n : Nat) (first : Frame)
+    (ws canon : List Frame) (hw : walk get n first = .ok ws) (hp : ws.Perm canon) (hc : StrictIdx canon) :
+    load H S.sort get n first = load H S'.sort get n first := by
+  unfold load
+  rw [collect_of_walk_perm S get n first ws canon hw hp hc,
+    collect_of_walk_perm S' get n first ws canon hw hp hc]
+
+example : load toyH SortFn.ins.sort (layoutStore ch 2 true (some 28) rev) 6 (mkFrame ch 2 true (some 28) rev 0)
+    = load toyH SortFn.merge.sort (layoutStore ch 2 true (some 28) rev) 6 (mkFrame ch 2 true (some 28) rev 0) :=
+  sort_choice_irrelevant toyH _ _ _ 6 _ _ ((List.range' 0 5).map (mkFrame ch 2 true (some 28) rev))
+    (by decide : walk (layoutStore ch 2 true (some 28) rev) 6 (mkFrame ch 2 true (some 28) rev 0) = .ok _)
+    (by decide) (canon_strict ch 2 true (some 28) rev 0 5)
+
+/-! ### 2. soundness of an `ok` answer -/
+
+/-- Whatever the store contains: when `LoadDataFromDataFrames` returns bytes, they are the concatenation of
+the collected frames in sorted order, the number of collected frames equals the first frame's `total` when
+present, and the first frame's `hash`, when present, is the CRC-64 or the FNV of the returned bytes — exactly
+what `VerifyHash` accepts. -/
+theorem reassemble_sound (H : Hashes) (S : SortFn) (get : Store) (n : Nat) (first : Frame) (b : Bytes)
+    (hb : load H S.sort get n first = .ok b) :
+    ∃ fs ws, collect S.sort get n first = .ok fs ∧ walk get n first = .ok ws ∧ fs.Perm ws ∧ Sorted fs ∧
+      b = payloadOf fs ∧
+      (∀ t, first.total = some t → (fs.length : Int) = t) ∧
+      (∀ h, first.hash = some h → H.crc b = h ∨ H.fnv b = h) := by
+  unfold load at hb
+  cases hc : collect S.sort get n first with
+  | err e => rw [hc] at hb; cases hb
+  | ok fs =>
+    rw [hc] at hb
+    obtain ⟨ws, hw, hp, hs⟩ := collect_ok_iff S get n first fs hc
+    refine ⟨fs, ws, rfl, hw, hp, hs, ?_⟩
+    unfold finish at hb
+    cases htot : first.total with
+    | none =>
+      cases hh : first.hash with
+      | none =>
+        simp [htot, hh] at hb
+        exact ⟨hb.symm, fun t ht => by cases ht, fun h hh' => by cases hh'⟩
+      | some h =>
+        simp only [htot, hh, if_true] at hb
+        by_cases hv : verifyHash H (payloadOf fs) h = true
+        · simp only [hv, if_true] at hb
+          injection hb with hb
+          refine ⟨hb.symm, fun t ht => by cases ht, fun h' hh' => ?_⟩
+          injection hh' with hh'; subst hh'; subst hb
+          unfold verifyHash at hv
+          simpa using hv
+        · simp [hv] at hb
+    | some t =>
+      by_cases hcnt : (fs.length : Int) = t
+      · cases hh : first.hash with
+        | none =>
+          simp [htot, hh, hcnt] at hb
+          exact ⟨hb.symm, fun t' ht => by injection ht with ht; omega, fun h hh' => by cases hh'⟩
+        | some h =>
+          simp only [htot, hh, hcnt, decide_true, if_true] at hb
+          by_cases hv : verifyHash H (payloadOf fs) h = true
+          · simp only [hv, if_true] at hb
+            injection hb with hb
+            refine ⟨hb.symm, fun t' ht => by injection ht with ht; omega, fun h' hh' => ?_⟩
+            injection hh' with hh'; subst hh'; subst hb
+            unfold verifyHash at hv
+            simpa using hv
+          · simp [hv] at hb
+      · simp [htot, hcnt] at hb
+
+/-! ### 3. faults (payloads carrying the frame count and the checksum the writer records) -/
+
+/-- The general statement.  `first` carries `total = k` and `hash = h`, where `h` is what the writer recorded
+for `payload` (CRC-64 or FNV).  Whatever the — possibly corrupted, mixed, incomplete — store delivers:
+* a traversal that fetches a number of frames other than `k` (frames dropped or duplicated) is a count error;
+* an error of the getter is the answer;
+* otherwise the answer is an error, or the original payload, or bytes `b ≠ payload` that collide with it
+  under the accepted checksums (`H.crc b = h ∨ H.fnv b = h`) — the collision is part of the statement. -/
+theorem fault_detected (H : Hashes) (S : SortFn) (get : Store) (n : Nat) (first : Frame) (payload : Bytes)
+    (k : Int) (h : Nat) (ht : first.total = some k) (hh : first.hash = some h)
+    (_hrec : H.crc payload = h ∨ H.fnv payload = h) :
+    (∀ ws, walk get n first = .ok ws → (ws.length : Int) ≠ k → load H S.sort get n first = .err .count) ∧
+    (∀ e, walk get n first = .err e → load H S.sort get n first = .err e) ∧
+    (∀ b, load H S.sort get n first = .ok b →
+        b = payload ∨ (b ≠ payload ∧ (H.crc b = h ∨ H.fnv b = h))) := by
+  refine ⟨fun ws hw hlen => count_fault_detected H S get n first ws k hw ht hlen,
+    fun e hw => fetch_fault_detected H S get n first e hw, fun b hb => ?_⟩
+  obtain ⟨_, _, _, _, _, _, _, _, hhash⟩ := reassemble_sound H S get n first b hb
+  by_cases hbp : b = payload
+  · exact Or.inl hbp
+  · exact Or.inr ⟨hbp, hhash h hh⟩
+
+/-- the first frame lists one link less: a frame (with everything below it) is dropped ⇒ count error -/
+theorem drop_detected (H : Hashes) (S : SortFn) (get : Store) (n : Nat) (first : Frame) (ws : List Frame)
+    (c : Cid) (hw : walk get (n+1) first = .ok ws) (ht : first.total = some (ws.length : Int))
+    (hc : c ∈ first.next) :
+    load H S.sort get (n+1) { first with next := first.next.erase c } = .err .count :=
+  drop_link_detected H S get n first ws c hw ht hc
+
+/-- the first frame lists one link twice: a frame is duplicated ⇒ count error -/
+theorem duplicate_detected (H : Hashes) (S : SortFn) (get : Store) (n : Nat) (first : Frame) (ws : List Frame)
+    (c : Cid) (hw : walk get (n+1) first = .ok ws) (ht : first.total = some (ws.length : Int))
+    (hc : c ∈ first.next) :
+    load H S.sort get (n+1) { first with next := c :: first.next } = .err .count :=
+  dup_link_detected H S get n first ws c hw ht hc
+
+/-- a link, anywhere below the first frame, to a frame the store does not hold ⇒ never an `ok` answer -/
+theorem missing_detected (H : Hashes) (S : SortFn) (get : Store) (n : Nat) (first g : Frame) (c : Cid)
+    (hg : g = first ∨ Reach get first g) (hc : c ∈ g.next) (hnone : get c = none) :
+    ∀ b, load H S.sort get n first ≠ .ok b :=
+  missing_frame_detected H S get n first g c hg hc hnone
+
+/-- The data of one frame `c` of a layout is altered (bit flip, or the bytes of a frame of another payload put
+in its place), every other field as written, the first frame still carrying the hash `h` of the original:
+the answer is a hash error, unless the altered bytes collide — in which case exactly the altered bytes come
+back.  In no case are the original bytes or anything else returned. -/
+theorem alter_detected (H : Hashes) (S : SortFn) (chunks : List Bytes) (F : Nat) (tot : Bool) (h : Nat)
+    (σ : Nat → List Cid → List Cid) (hF : 1 ≤ F) (hσ : ∀ j l, (σ j l).Perm l)
+    (c : Nat) (d : Bytes) (hc : c < chunks.length) (hd : d ≠ chunks.getD c [])
+    (get : Store) (hget : ∀ x, x < chunks.length → get x = some (mkFrame (chunks.set c d) F tot (some h) σ x))
+    (n : Nat) (hn : chunks.length ≤ n) :
+    (chunks.set c d).flatten ≠ chunks.flatten ∧
+    ((load H S.sort get n (mkFrame (chunks.set c d) F tot (some h) σ 0) = .err .hash ∧
+        H.crc (chunks.set c d).flatten ≠ h ∧ H.fnv (chunks.set c d).flatten ≠ h) ∨
+     (load H S.sort get n (mkFrame (chunks.set c d) F tot (some h) σ 0) = .ok (chunks.set c d).flatten ∧
+        (H.crc (chunks.set c d).flatten = h ∨ H.fnv (chunks.set c d).flatten = h))) := by
+  refine ⟨flatten_set_ne chunks c d hc hd, ?_⟩
+  have hne : chunks.set c d ≠ [] := by
+    intro e; have := congrArg List.length e; simp at this; omega
+  have hl := load_layout H S (chunks.set c d) F tot (some h) σ hne hF hσ get
+    (by simpa using hget) n (by simpa using hn)
+  rw [hl]
+  unfold hashStep verifyHash
+  by_cases h1 : H.crc (chunks.set c d).flatten = h
+  · right; simp [h1]
+  · by_cases h2 : H.fnv (chunks.set c d).flatten = h
+    · right; simp [h2]
+    · left; simp [h1, h2]
+
+/-- non-vacuity of the fault statements on the toy checksums: a dropped link and a duplicated link are count
+errors, a deleted frame a getter error, an altered byte a hash error … -/
+def st : Store := layoutStore ch 2 true (some 28) rev
+def f0 : Frame := mkFrame ch 2 true (some 28) rev 0
+example : load toyH SortFn.ins.sort st 6 { f0 with next := f0.next.erase 1 } = .err .count := by decide
+example : load toyH SortFn.ins.sort st 6 { f0 with next := 1 :: f0.next } = .err .count := by decide
+example : load toyH SortFn.ins.sort (fun c => if c = 3 then none else st c) 6 f0 = .err .get := by decide
+example : load toyH SortFn.ins.sort (layoutStore (ch.set 3 [4,5,7]) 2 true (some 28) rev) 6 f0 = .err .hash := by
+  decide
+/-- … and the collision disjunct cannot be dropped: with a byte-sum checksum, swapping two bytes inside a frame
+returns different bytes without an error -/
+example : load toyH SortFn.ins.sort (layoutStore (ch.set 3 [5,4,6]) 2 true (some 28) rev) 6 f0
+    = .ok [1,2,3,5,4,6,7] := by decide
+
+/-! ### 4. the unstable sort -/
+
+/-- Whatever `sort.Slice` does with equal or missing indices, the answer is one of `outcomes`: the answers for
+the sorted permutations of the fetched frames (a single one when the indices are distinct).  The driver prints
+this set for op lines in the duplicate-index regime and the real answer must be a member. -/
+theorem sort_freedom_bounded (H : Hashes) (S : SortFn) (get : Store) (n : Nat) (first : Frame) :
+    load H S.sort get n first ∈ outcomes H get n first :=
+  load_mem_outcomes H S get n first
+
+/-- non-vacuity: frame 2 carries index 1 a second time — two answers are possible, both sort functions
+land in the set (here both are hash errors or the bytes in either order when no hash is recorded) -/
+def dupStore : Store := fun c =>
+  if c = 1 then some ⟨some 1, none, none, [20], []⟩ else if c = 2 then some ⟨some 1, none, none, [30], []⟩ else none
+def dupFirst : Frame := ⟨some 0, some 3, none, [10], [1, 2]⟩
+example : outcomes toyH dupStore 3 dupFirst = [.ok [10, 20, 30], .ok [10, 30, 20]] := by decide
+example : load toyH SortFn.ins.sort dupStore 3 dupFirst ∈ outcomes toyH dupStore 3 dupFirst := by decide
+
+/-! ### 5. fuel -/
+
+/-- an answer other than `fuel` does not depend on the fuel: the fuel the driver supplies (number of frames
+on the op lines + 1) can only matter for graphs on which the Go recursion does not return -/
+theorem fuel_irrelevant (H : Hashes) (S : SortFn) (get : Store) (n m : Nat) (f : Frame)
+    (h : load H S.sort get n f ≠ .err .fuel) (hnm : n ≤ m) : load H S.sort get m f = load H S.sort get n f :=
+  load_fuel_mono H S.sort get n m f h hnm
+
+/-- a frame that reaches itself through `next` links is never reassembled, whatever the fuel; the Go code
+recurses without bound on such a graph (forged CAR: property C12) -/
+theorem cyclic_never_returns (H : Hashes) (S : SortFn) (get : Store) (f : Frame) (hcyc : Reach get f f) (n : Nat) :
+    ∀ b, load H S.sort get n f ≠ .ok b := by
+  intro b hb
+  unfold load at hb
+  cases hc : collect S.sort get n f with
+  | err e => rw [hc] at hb; cases hb
+  | ok fs => exact cyclic_never_ok S get f hcyc n fs hc
+
+def loopStore : Store := fun c => if c = 7 then some ⟨some 0, none, none, [1], [7]⟩ else none
+example : load toyH SortFn.ins.sort loopStore 50 ⟨some 0, none, none, [1], [7]⟩ = .err .fuel := by decide
+example : Reach loopStore ⟨some 0, none, none, [1], [7]⟩ ⟨some 0, none, none, [1], [7]⟩ :=
+  Reach.step (c := 7) (by simp) (by simp [loopStore])
+
+/-! ### 6. the per-transaction frame map of `accum.ObjectsToTransactionsAndMetadata` -/
+
+/-- The loop that resolves frames from the map filled since the previous transaction gives, whenever it
+succeeds, exactly the bytes the epoch-wide getter gives (every DataFrame object of the stream being what the
+getter returns for its CID): the map is a restriction of the epoch-wide lookup and can only fail more often
+("dataframe not found"), never return other bytes. -/
+theorem accum_map_variant (H : Hashes) (S : SortFn) (fuel : Nat) (get : Store) (objs : List Obj)
+    (m : List (Cid × Frame)) (bs : List Bytes) (hcons : Consistent get m objs)
+    (h : accRun H S.sort fuel m objs = .ok bs) : globalRun H S.sort fuel get objs = .ok bs :=
+  accRun_global H S.sort fuel get objs m bs hcons h
+
+/-- and it succeeds on what a writer produces: the frames of the layout placed, in any order, between the
+previous transaction and their own (all `k` frames in the map) reassemble to the payload -/
+theorem accum_map_complete (H : Hashes) (S : SortFn) (chunks : List Bytes) (F : Nat) (h : Option Nat)
+    (σ : Nat → List Cid → List Cid) (hk : 2 ≤ chunks.length) (hF : 1 ≤ F) (hσ : ∀ j l, (σ j l).Perm l)
+    (hh : ∀ x, h = some x → H.crc chunks.flatten = x ∨ H.fnv chunks.flatten = x)
+    (m : List (Cid × Frame)) (hm : ∀ c, c < chunks.length → lookup m c = some (mkFrame chunks F true h σ c))
+    (fuel : Nat) (hfuel : chunks.length ≤ fuel) (rest : List Obj) :
+    accRun H S.sort fuel m (.tx (mkFrame chunks F true h σ 0) :: rest) =
+      match accRun H S.sort fuel [] rest with
+      | .err e => .err e
+      | .ok bs => .ok (chunks.flatten :: bs) := by
+  have hne : chunks ≠ [] := by intro e; rw [e] at hk; simp at hk
+  have hs : single (mkFrame chunks F true h σ 0) = false := by
+    simp [single, mkFrame]; omega
+  conv => lhs; unfold accRun
+  unfold txMeta
+  simp only [hs]
+  rw [reassemble_ok H S chunks F true h σ hne hF hσ hh (lookup m) hm fuel hfuel]
+  simp
+
+/-- a single-frame payload: the shortcut used by `accum` and `Transaction.GetSolanaTransaction` (the frame's
+own bytes checked against its own hash) is what `LoadDataFromDataFrames` answers for a frame without links -/
+theorem accum_single_agrees (H : Hashes) (S : SortFn) (get : Store) (n : Nat) (first : Frame)
+    (hnext : first.next = []) (hs : single first = true) :
+    load H S.sort get (n+1) first = txMeta H S.sort (n+1) get first := by
+  rw [single_agrees H S.sort get n first hnext hs]
+  unfold txMeta; simp [hs]
+
+/-- non-vacuity: frames of the first transaction arrive in shuffled order before it, a single-frame
+transaction follows; the map is cleared in between, so a frame listed before the first transaction is not
+available to the second one -/
+def objs : List Obj :=
+  [.frame 3 (mkFrame ch 2 true (some 28) rev 3), .other, .frame 1 (mkFrame ch 2 true (some 28) rev 1),
+   .frame 4 (mkFrame ch 2 true (some 28) rev 4), .frame 2 (mkFrame ch 2 true (some 28) rev 2),
+   .tx (mkFrame ch 2 true (some 28) rev 0), .tx ⟨some 0, some 1, some 9, [9], []⟩]
+example : accRun toyH SortFn.ins.sort 6 [] objs = .ok [[1,2,3,4,5,6,7], [9]] := by decide
+example : globalRun toyH SortFn.ins.sort 6 st objs = .ok [[1,2,3,4,5,6,7], [9]] := by decide
+example : accRun toyH SortFn.ins.sort 6 [] (objs ++ [.tx (mkFrame ch 2 true (some 28) rev 0)]) = .err .get := by
+  decide
+
 end C14
